@@ -243,6 +243,33 @@ class VectorModel(ContainerModel):
         return Model.member(self, fe, b, name, args, node)
 
 
+class QueueModel(ContainerModel):
+    """std::queue<T> on the (shared) vector model instance of T: push at the back, pop at the front"""
+    KIND = 'queue'
+
+    def __init__(self, vm):
+        Model.__init__(self, vm.cname, vm.ctype)
+        self.v = vm
+        self.elem = vm.elem
+
+    def default_ctor(self, fe):
+        return self.v.default_ctor(fe)
+
+    def construct(self, fe, cty, args, node):
+        return self.v.construct(fe, cty, args, node)
+
+    def member(self, fe, b, name, args, node):
+        c = self.cname
+        pb = addr(b)
+        if name in ('push', 'emplace') and len(args) == 1:
+            return '%s_push_back(%s, %s)' % (c, pb, fe.expr(args[0]))
+        if name == 'pop' and not args:
+            return '%s_pop_front(%s)' % (c, pb)
+        if name in ('front', 'back', 'empty', 'size') and not args:
+            return self.v.member(fe, b, name, args, node)
+        return Model.member(self, fe, b, name, args, node)
+
+
 class MapModel(ContainerModel):
     KIND = 'map'
 
@@ -377,6 +404,8 @@ class Registry:
             return 'CM_LT_SCALAR', 'CM_EQ_SCALAR'
         if key.kind == 'name' and key.name == 'std::string':
             return 'CM_LT_STR', 'CM_EQ_STR'
+        if key.kind == 'name' and key.name == 'std::pair' and all(scalar(a) for a in key.args):
+            return 'CM_LT_PAIR', 'CM_EQ_PAIR'
         a = em.abbr(key)
         if a in self.key_ops_table:
             return self.key_ops_table[a]
@@ -401,6 +430,8 @@ class Registry:
             return PairModel(self, em, ty)
         if n == 'std::vector':
             return VectorModel(self, em, ty)
+        if n == 'std::queue':
+            return QueueModel(self.lookup(em, Ty('name', 'std::vector', ty.args[:1])))
         if n in ('std::map',):
             return MapModel(self, em, ty, 'map')
         if n in ('std::unordered_map',):
